@@ -5,6 +5,10 @@
    State:   regs[r]  = raw representation held by register r (its declared type is Menu[r])
    Actions: Reset            all registers value-initialised (0)
             Load(r, v)       r := v
+            FromInt(r, k)    r := its type constructed from the built-in integer k (rounded / overflow-checked like a Step)
+            Cmp(a, b)        the six comparisons of two registers by value            (no state change)
+            ToFloat(a)       conversion to double: one of the two neighbouring doubles (no state change)
+            Step("neg", a, a, d)   d := -a;   compound assignment d op= a is the Step d := d op a
             Step(op, a, b, d)  d := a op b   -- the binary operator on the operands' types (elastic widening: exact
                              for +,-,*; the quotient rounded by the rounding mode for /) followed by conversion to d's
                              declared type: rounding conversion by d's rounding mode, then the overflow check of d's
@@ -27,6 +31,14 @@ OpResultValue(op, ta, ra, tb, rb) ==
            IN <<IF op = "add" THEN Add(x, y) ELSE Sub(x, y), em>>
       [] op = "mul" -> <<Mul(ra, rb), TExp(ta) + TExp(tb)>>
       [] op = "div" -> <<RoundQ(ra, rb, RoundingOf(ta)), TExp(ta) - TExp(tb)>>
+      [] op = "neg" -> <<Neg(ra), TExp(ta)>>                       \* unary minus (b is ignored)
+
+\* order of the values of two registers: -1, 0, 1
+CmpValue(ta, ra, tb, rb) ==
+    LET em == MinI(TExp(ta), TExp(tb)) IN Cmp(Shl(ra, TExp(ta) - em), Shl(rb, TExp(tb) - em))
+\* the six comparison results as one number: < 1, <= 2, > 4, >= 8, == 16, != 32
+CmpMaskOf(c) == (IF c < 0 THEN 1 ELSE 0) + (IF c <= 0 THEN 2 ELSE 0) + (IF c > 0 THEN 4 ELSE 0) + (IF c >= 0 THEN 8 ELSE 0)
+                + (IF c = 0 THEN 16 ELSE 0) + (IF c # 0 THEN 32 ELSE 0)
 
 \* conversion of <<raw, exponent>> to type td: [k |-> "val", v] or [k |-> "pos"/"neg"]
 ConvertTo(val, td) ==
@@ -36,7 +48,17 @@ ConvertTo(val, td) ==
        ELSE IF Lt(r, Neg(TMaxRaw(td))) THEN [k |-> "neg", v |-> Neg(TMaxRaw(td))]
        ELSE [k |-> "val", v |-> r]
 
-\* what a Step must look like: expected `after` and `out` given the destination's overflow tag
+\* what storing the exact value `val` (<<raw, exponent>>) into a register of type td must look like: expected
+\* `after` and `out` given the destination's overflow tag
+StoreOK(val, td, before, after, out) ==
+    LET c == ConvertTo(val, td)
+        tag == OverflowOf(td)
+    IN IF c.k = "val" THEN out = "ok" /\ after = c.v
+       ELSE CASE tag = "saturated" -> out = "ok" /\ after = c.v
+              [] tag = "throwing" -> out = (IF c.k = "pos" THEN "throw:positive overflow" ELSE "throw:negative overflow") /\ after = before
+              [] tag = "trapping" -> out = (IF c.k = "pos" THEN "trap:positive overflow" ELSE "trap:negative overflow") /\ after = before
+              [] OTHER -> TRUE
+\* what a Step must look like
 StepOK(op, ta, ra, tb, rb, td, before, after, out) ==
     LET c == ConvertTo(OpResultValue(op, ta, ra, tb, rb), td)
         tag == OverflowOf(td)
@@ -52,6 +74,7 @@ TmpDigits(op, ta, tb) ==
                                   IN MaxI2(TDig(ta) + (TExp(ta) - em), TDig(tb) + (TExp(tb) - em)) + 1
       [] op = "mul" -> TDig(ta) + TDig(tb)
       [] op = "div" -> TDig(ta)
+      [] op = "neg" -> TDig(ta)
 StorageDigits(t) == TDigits(AsIntT(InnerT(t)))
 \* elastic / casts both operands to the dividend-sized representation (ELASTIC-DIVMOD-NARROWS-OPERAND)
 DivOperandNarrowed(op, ta, ra, tb, rb) == op = "div" /\ BitLen(rb) > MaxI2(TDig(ta), StorageDigits(ta))
